@@ -926,3 +926,92 @@ PROPS['C06'] = dict(
     assumptions=['which prefixes can persist after power loss is the contract of the file system (every prefix beyond the last sync is explored)',
                  'known finding E8 (torn tail record accepted) is reported as KNOWN-FINDING'],
 )
+
+
+def oracle_c14(res, i):
+    cmd = res['script'][i].split()
+    out = res['impl'][i]
+    c = cmd[0]
+    if c == 'corruptedx':
+        m = re.match(r'n=(\d+) short=(\d+)', out)
+        if not m:
+            return f'MISMATCH {out}'
+        n, short = int(m.group(1)), int(m.group(2))
+        if n - short > 0:
+            return f'MISMATCH a blob file that held records no longer parses at start-up after a cancelled operation: {out}'
+        if short > 0:
+            return (f'MISMATCH E18: {short} blob file(s) left without a complete header by a cancelled blob creation were '
+                    f'quarantined at the next start')
+    if c in ('restart', 'open') and out != 'ok':
+        return f'MISMATCH init failed: {out}'
+    if c == 'alive' and out != 'alive':
+        return 'MISMATCH worker dead'
+    if c == 'w' and not out.startswith('ok'):
+        return f'MISMATCH a later write fails after a cancelled operation: {out}'
+    if c == 'd' and not out.startswith('n='):
+        return f'MISMATCH a later delete fails after a cancelled operation: {out}'
+    return None
+
+
+PROPS['C14'] = dict(
+    gen=lambda rng, tier: gen.cancel_scenario(rng, size=tier),
+    p_cmds={'cancel', 'r', 'ram', 'w', 'd', 'corruptedx', 'restart', 'alive', 'counts'},
+    oracle_cmds={'r', 'ram', 'states', 'counts'}, py_oracle=oracle_c14, impl_only_cmds={'corruptedx'},
+    count={'quick': 120, 'thorough': 1500}, timeout=2400,
+    nontrivial=lambda lines: any(l.startswith('cancel') for l in lines),
+    features=lambda lines: {'cancel k=' + l.split()[1] + ' ' + l.split()[2] for l in lines if l.startswith('cancel')} |
+    {t for l in lines[:1] for t in l.split() if t.startswith('rt=')},
+    rule=("a history, then 2-14 rounds: an operation future (write of 0..90000 bytes, delete, close/create/restore active) is "
+          "polled k in {1,2,3,4,5,7,10} times and dropped (current-thread runtime: every file operation is a suspension point; "
+          "multi-thread: records above 80 KiB), already started blocking closures run to completion; then every key is "
+          "read, a further operation must succeed, and at random points the storage restarts with all index files removed so "
+          "that every blob file is re-parsed (no quarantine allowed). The Spec oracle treats a dropped operation as 'entirely "
+          "or not at all, at the latest from the next start' (a record that shows up later than the first start after the "
+          "cancellation is unexplained growth)"),
+    assumptions=['dropping a tokio JoinHandle does not cancel a spawn_blocking closure (tokio contract)',
+                 'the number of polls to completion is reported by the harness (polls=n) and listed in the evidence features'],
+)
+
+
+def oracle_c08(res, i):
+    cmd = res['script'][i].split()
+    out = res['impl'][i]
+    c = cmd[0]
+    if c == 'conc' and not out.startswith('sweep ok'):
+        return f'MISMATCH concurrent clients: {out}'
+    if c == 'alive' and out != 'alive':
+        return 'MISMATCH worker dead after the concurrent run'
+    if c == 'corruptedx' and not out.startswith('n=0 '):
+        return f'MISMATCH a blob written concurrently does not parse at the next start: {out}'
+    if c in ('restart', 'settle') and out != 'ok':
+        return f'MISMATCH {c}: {out}'
+    return None
+
+
+PROPS['C08'] = dict(
+    gen=lambda rng, tier: gen.conc_scenario(rng, size=tier),
+    p_cmds={'conc', 'alive', 'corruptedx', 'restart', 'settle'},
+    oracle_cmds={'states'}, py_oracle=oracle_c08, no_oracle_after_nomodel=True, impl_only_cmds={'corruptedx'},
+    count={'quick': 32, 'thorough': 300}, timeout=2400,
+    nontrivial=lambda lines: any(l.startswith('conc') for l in lines),
+    features=lambda lines: {('conc clients=' + l.split()[1] + (' maint' if 'maint' in l else '')) for l in lines if l.startswith('conc')} |
+    {t for l in lines[:1] for t in l.split() if t.startswith(('rt=', 'maxdata='))},
+    rule=("2..2000 client tasks, each issuing 4-30 operations (55% writes of 0..5000 bytes, 10% deletes, 20% contains, 15% "
+          "reads) on a pool of 4 keys with globally unique increasing timestamps, on a fresh blob and again after a restart "
+          "(reopened blob), record limits {inf,50,20,7} so that blobs rotate during the run, multi-thread and current-thread "
+          "runtimes, optionally a maintenance task (close/create/restore active, fsyncdata, free_excess_resources, "
+          "force_update). Every invocation and response is stamped by a global counter; afterwards each probe/read is checked "
+          "(not older than every update acknowledged before it started; only values written to that key by an operation "
+          "invoked before the response), every acknowledged write is found in a blob file, every blob file parses to its last "
+          "byte and validates, the final version list of every key equals the sequential outcome, the run ends (no deadlock), "
+          "and the next start re-parses all blobs without quarantine"),
+    assumptions=['the schedule is whatever tokio and the OS produce; the LTS theorems (Props/C08) cover all schedules of the abstract protocol',
+                 'known finding E7: >= channel capacity + 2 writers inside the shared section with a full blob deadlock (proved on the LTS)'],
+)
+
+
+def known_e18_cancelled_creation(f):
+    return f.scen['script'][f.line_no] == 'corruptedx' and 'MISMATCH E18:' in f.detail
+
+
+KNOWN_PREDICATES['e18_cancelled_creation'] = known_e18_cancelled_creation
